@@ -1,6 +1,7 @@
 package props
 
 import (
+	"bytes"
 	"errors"
 	"fmt"
 	"os"
@@ -168,6 +169,13 @@ func ErrorAckStepCheck(m *PktModel, w *world.World, ev *StepEvent) []explore.Fin
 	if !isErrorAck(ack) {
 		return fs
 	}
+	// "records exactly the receipt and the acknowledgement": both must be there
+	if !ev.Chain.HasReceipt(ev.Pkt.SourceChain, ev.Pkt.DestinationChain, ev.Pkt.Sequence) {
+		add("error-ack-without-receipt", id+" on "+ev.Chain.Name)
+	}
+	if h, ok := ev.Chain.AckHash(ev.Pkt.SourceChain, ev.Pkt.DestinationChain, ev.Pkt.Sequence); !ok || !bytes.Equal(h, sha(ack)) {
+		add("error-ack-not-stored", id+" on "+ev.Chain.Name)
+	}
 	ch := ev.Pkt.SourceChain + "/" + ev.Pkt.DestinationChain
 	allowed := map[string]bool{
 		fmt.Sprintf("+ \"tibc|receipts/%s/sequences/%d\"", ch, ev.Pkt.Sequence): true,
@@ -206,16 +214,19 @@ func modelsC19(tier string) ([]*PktModel, []int) {
 	mt := mt3("mt2-tx-probes", props, MtScenario{MaxUserTx: 2, Supply: 3, Amounts: []uint64{1, 4}, Receivers: []int{1}, BadReceiver: true}, []string{A, B})
 	mt.ProbeMode = "tx"
 	mt.StepCheck = Steps(CoreStepCheck, MtStep, ErrorAckStepCheck)
-	depth := []int{4, 4}
+	// mock packets over three chains: C->A through B is refused by B's rules (error acknowledgement written by the relay chain)
+	relay := core3("core3-relay-refusal", props, "")
+	relay.StepCheck = Steps(CoreStepCheck, ErrorAckStepCheck)
+	depth := []int{4, 4, 5}
 	if tier == "thorough" {
-		depth = []int{7, 6}
+		depth = []int{7, 6, 8}
 	}
 	// probes are expensive as real transactions: probe the states at even depths only in the quick tier
 	if tier != "thorough" {
 		nft.ProbeFilter = func(d int) bool { return d%2 == 0 }
 		mt.ProbeFilter = func(d int) bool { return d%2 == 0 }
 	}
-	return []*PktModel{nft, mt}, depth
+	return []*PktModel{nft, mt, relay}, depth
 }
 
 func CheckC19(tier string) int {
